@@ -232,6 +232,7 @@ INFO = {
         "level_note": "Trusted: Lean kernel + 3 standard axioms; correspondence coverage. Partial: see gaps.",
     },
     "C08": {
+        "cli": True,
         "rule": "factorize_mod_p on every polynomial up to a degree bound over F_2, F_3, F_5, F_7, random degree <= 16 over primes up to 2^61 and beyond 2^64 (pusize in {0, 7, p mod 2^64} on the same captured history), p-th powers, products of equal-degree irreducibles, leading coefficient divisible by p; primitives of prim.rs. Non-trivial: polynomial of degree >= 2.",
         "rulefn": _pm_rule,
         "trusted": _PM_TRUST,
